@@ -14,8 +14,7 @@ import Ebv.Generated.Consts
   low bytes at `r10 + key_offset + rel` / `r0 + rel`.
 * The kernel hash map is the finite map `List (bytes × bytes)` with the helper semantics
   `lookup / update / delete` (`Assoc`), shared by both sides.
-* `cStep`: what every `TheDict` operation does, as the code is (in particular iterating an empty Dict
-  dies with `RuntimeError`: `StopIteration` of the first `get_next_key` inside the generator).
+* `cStep`: what every `TheDict` operation does, as the code is.
 * `aStep`: the abstract dictionary over member tuples the property speaks about.
 * hash variables: 1-byte ordinal key, 8-byte cell, `HashMap.load` defaults, both sides' get/set. -/
 namespace Ebv.HashVars
@@ -221,8 +220,8 @@ def cStep (D : DictDecl) (stack0 : Bytes) (m : KMap) : Op → KMap × Out
       match lookup m kb with
       | some vb => (if dict_pop_cmd = bpf_LOOKUP_DELETE then erase m kb else m, .value (readMembers 0 D.valFmts vb))
       | none => (m, .keyError)
-  | .pyIter =>       -- the first `get_next_key` raises `StopIteration` inside the generator when the map is empty
-    if m.isEmpty then (m, .runtimeError) else (m, .keys (m.map fun e => readMembers 0 D.keyFmts e.1))
+  | .pyIter =>       -- `StopIteration` of the first `get_next_key` (empty map) ends the generator
+    (m, .keys (m.map fun e => readMembers 0 D.keyFmts e.1))
   | .prUpdate k v flags =>
     let st := progStruct D.valBase D.valFmts v (progStruct D.keyBase D.keyFmts k stack0)
     let kb := slice st D.keyBase (D.keyBase + D.K)
@@ -302,8 +301,8 @@ deriving DecidableEq, Repr
 
 structure HVar where
   fmt : HFmt
-  default : Int            -- for `fixed`: the raw (integer) default as written in the declaration
-  defaultIsFloat : Bool    -- a `float` default (only meaningful for `fixed`)
+  default : Int            -- an `int` default, or the scaled value of a `float` default
+  defaultIsFloat : Bool
 deriving Repr
 
 def HFmt.signed : HFmt → Bool
@@ -337,6 +336,14 @@ inductive HOut where
   | value (v : Int)
 deriving Repr, DecidableEq
 
+/-- what `HashGlobalVarDesc.__set__` hands to `pack("q"|"Q", …)`: a fixed-point variable is scaled
+(`round(value * FIXED_BASE)`; a float is given here by its scaled value), a float into an integer
+variable is a `struct.error` (`none`) -/
+def pyStored (f : HFmt) (v : Int) (isFloat : Bool) : Option Int :=
+  match f with
+  | .plain _ => if isFloat then none else some v
+  | .fixed => some (if isFloat then v else v * FIXED_BASE)
+
 def hvPySet (vars : List HVar) (m : KMap) (i : Nat) (v : Int) (isFloat : Bool) : KMap × HOut :=
   match vars[i]? with
   | none => (m, .keyError)
@@ -344,8 +351,11 @@ def hvPySet (vars : List HVar) (m : KMap) (i : Nat) (v : Int) (isFloat : Bool) :
     match pyKey i with
     | none => (m, .structError)
     | some k =>
-      let okv := if isFloat then false else if x.fmt.signed then fitsS 8 v else fitsU 8 v
-      if okv then ((update vars.length m k (enc64 v) 0).1, .ok) else (m, .structError)
+      match pyStored x.fmt v isFloat with
+      | none => (m, .structError)
+      | some w =>
+        if (if x.fmt.signed then fitsS 8 w else fitsU 8 w) then ((update vars.length m k (enc64 w) 0).1, .ok)
+        else (m, .structError)
 
 def hvLoadFrom (vars : List HVar) (m : KMap) : Nat → List HVar → KMap × HOut
   | _, [] => (m, .ok)
@@ -367,9 +377,7 @@ def hvStep (vars : List HVar) (m : KMap) : HOp → KMap × HOut
         match lookup m k with
         | none => (m, .keyError)
         | some cell =>
-          match x.fmt with
-          | .plain _ => (m, .value (x.fmt.view cell))
-          | .fixed => (m, .indexError)           -- `unpack_from("x", …)` is `()`
+          (m, .value (x.fmt.view cell))          -- fixed point: `unpack_from("q", …)[0] / FIXED_BASE`, given scaled
   | .prGet i =>
     match vars[i]? with
     | none => (m, .keyError)
